@@ -52,6 +52,14 @@ func equal(x, y any) bool {
 		return false
 	}
 
+	// A number that is too large or too small for a decimal cannot be
+	// compared by value, but it is still equal to itself.
+	if xn, ok := x.(json.Number); ok {
+		if yn, ok := y.(json.Number); ok && xn == yn && json.Valid([]byte(xn)) {
+			return true
+		}
+	}
+
 	xd, ok := toDecimal(x)
 	if ok {
 		yd, ok := toDecimal(y)
